@@ -694,8 +694,20 @@ func (e *nodeEnv) poolSweep(n int) {
 			fmt.Fprintf(os.Stderr, "kind %d base %s %v got %s %v\n", kind, base, tMid.Sub(tSend), got, time.Since(tMid))
 		}
 		reach := 1
-		if base == "other" && early(bmsg) {
+		if base == "other" && early(bmsg) && !strings.Contains(bmsg, "ErrInvalidAddress") {
 			reach = 0
+		}
+		// the pool checks the members one after the other: recipient address, then blacklist
+		members := []*types.Transaction{send}
+		if g, _ := send.GetTxGroup(); g != nil {
+			members = g.GetTxs()
+		}
+		for j := range vs {
+			ok := "1"
+			if j < len(members) && address.CheckAddress(members[j].To, 1) != nil {
+				ok = "0"
+			}
+			vs[j] += ";" + ok
 		}
 		out.Op(fmt.Sprintf("pool %d %s %s", reach, base, strings.Join(vs, "|")), got)
 		if truth && got == "accepted" {
@@ -734,7 +746,7 @@ func (e *nodeEnv) poolSweep(n int) {
 				}
 			}
 			if res != "other" {
-				out.Op("delay "+vs[0], res)
+				out.Op("delay "+strings.SplitN(vs[0], ";", 2)[0], res)
 			}
 			if truth && res == "cached" {
 				out.Pred("C31|eventAddDelayTx|blacklisted-tx-cached", where)
